@@ -397,7 +397,9 @@ impl Local {
 
     pub(crate) fn schedule_collection(&self) {
         self.must_collect.set(true);
-        if self.collecting.get() {
+        // Move the announced epoch forward only if no guard created by a deferred function that
+        // is running right now is alive: such a guard must keep protecting what it has loaded.
+        if self.collecting.get() && self.guard_count.get() == 1 {
             self.repin_without_collect();
         }
     }
